@@ -63,6 +63,11 @@ def verify_unit(u, reg):
     res['info'] = info
     uu = dict(u)
     uu['node'] = node
+    if u.get('decide'):
+      # special-purpose complete decider for this unit's fragment (see the sidecar)
+      res['obligations'] = u['decide'](u, node, os.environ.get('VERIF_TIER_CURRENT', 'quick'))
+      res['time'] = time.time() - t0
+      return res
     if u.get('module_consts'):
       uu['consts'] = dict(u.get('consts', {}))
       uu['consts'].update(extract.module_constants(u['file'], u['module_consts']))
